@@ -60,14 +60,31 @@ def _work(job):
                 hyps.append(f)
         if goal is None:
             raise RuntimeError("goal marker lost in serialisation")
-        if "poly" in tactics or "linear" in tactics:
+        if "poly" in tactics or "linear" in tactics or "lift" in tactics:
             # poly.py uses the default context API via is_* helpers, which are context independent
             from . import poly
             try:
-                if z3.is_eq(goal) and not z3.is_bool(goal.children()[0]) and "poly" in tactics:
-                    r = poly.poly_eq_zero(goal.children()[0], goal.children()[1])
+                if "poly" in tactics:
+                    rules = poly.rules_from(hyps)
+                    gs = goal.children() if z3.is_and(goal) else [goal]
+                    r = all(z3.is_eq(g) and not z3.is_bool(g.children()[0]) and poly.poly_eq_zero(g.children()[0], g.children()[1], rules) for g in gs)
                     if r:
                         out.update(verdict="unsat", backend="poly-normal-form")
+                        out["time"] = time.time() - t0
+                        return out
+                if "lift" in tactics:
+                    # degree lifting: multiply every equality hypothesis by every degree-2 monomial of the variables that occur
+                    # in the goal but in no hypothesis, then decide the linearised problem
+                    gv, hv = set(), set()
+                    from .engine import _syms
+                    _syms(goal, gv, set())
+                    for h in hyps:
+                        _syms(h, hv, set())
+                    free = sorted(v for v in gv - hv if not v.startswith("fn:"))
+                    monos = [poly.p_mul(poly.p_var(a), poly.p_var(b)) for i, a in enumerate(free) for b in free[i:]]
+                    r, n = poly.linear_entails(list(hyps), goal, lift_vars=[monos], timeout_ms=min(int(timeout_ms), 30000))
+                    if r == "unsat":
+                        out.update(verdict="unsat", backend=f"degree-lifted linearised-LRA ({n} equations)")
                         out["time"] = time.time() - t0
                         return out
                 if "linear" in tactics:
